@@ -152,6 +152,10 @@ func drawCase(t *rapid.T, sysName string) listCase {
 		r := refmodel.Rec{Version: pool[order[i]]}
 		if sysName == "NPM" && ti < len(tags) && rapid.IntRange(0, 3).Draw(t, "tag") == 0 {
 			r.Tags = tags[ti]
+			// sometimes preceded by another tag that merely contains its text
+			if rapid.IntRange(0, 3).Draw(t, "decoybefore") == 0 {
+				r.Tags = rapid.SampledFrom([]string{tags[ti] + "-7,", "pre" + tags[ti] + ",", "x" + tags[ti] + "x,"}).Draw(t, "decoytag") + tags[ti]
+			}
 			ti++
 			if rapid.IntRange(0, 4).Draw(t, "second") == 0 && ti < len(tags) {
 				r.Tags += "," + tags[ti]
